@@ -9,6 +9,7 @@ import (
 func TestReplay(t *testing.T) {
 	verif.ReplayMain(map[string]func(){
 		"HarnessAlias":            HarnessAlias,
+		"HarnessQuoteJSON":        HarnessQuoteJSON,
 		"HarnessRawReuse":         HarnessRawReuse,
 		"HarnessReflectSelectNil": HarnessReflectSelectNil,
 	})
